@@ -30,6 +30,14 @@ static std::string check_population(solver* s, const char* phase) {
         if (ni >= L[ci]->node_lst_.size() || !L[ci]->node_lst_[ni].is_used_) { snprintf(buf, sizeof buf, "coupling-designates-dead-or-nonexistent-node: node %u of cell index %zu -> node %u of cell index %u (phase %s)", n.node_id_, i, ni, ci, phase); return buf; }
         // the partner must be the node the contact phase meant: both cells epithelial and within the adhesion cut-off
         if (L[ci]->get_cell_type_id() != 0 || L[i]->get_cell_type_id() != 0) { snprintf(buf, sizeof buf, "coupling-between-non-epithelial-cells: index %zu -> %u (phase %s)", i, ci, phase); return buf; } }
+#elif CONTACT_MODEL_INDEX == 2
+    bool couplings_live = !strcmp(phase, "polarize") || !strcmp(phase, "forces") || !strcmp(phase, "integrate");
+    if (couplings_live) for (size_t i = 0; i < L.size(); i++) for (const node& n : L[i]->node_lst_) if (n.is_used_) for (auto& kv : n.coupled_nodes_map_) { T.couplings_seen++; unsigned ci = kv.first, ni = kv.second.first;
+        if (ci >= L.size()) { snprintf(buf, sizeof buf, "coupling-designates-nonexistent-cell: node %u of cell at index %zu is coupled to cell index %u of %zu (phase %s)", n.node_id_, i, ci, L.size(), phase); return buf; }
+        if (ci == i) { snprintf(buf, sizeof buf, "coupling-designates-own-cell: node %u of cell at index %zu (phase %s)", n.node_id_, i, phase); return buf; }
+        if (ni >= L[ci]->node_lst_.size() || !L[ci]->node_lst_[ni].is_used_) { snprintf(buf, sizeof buf, "coupling-designates-dead-or-nonexistent-node: node %u of cell index %zu -> node %u of cell index %u (phase %s)", n.node_id_, i, ni, ci, phase); return buf; }
+        // a coupling recorded on one side must be recorded on the other: the partner must hold an entry for this cell
+        const auto& back = L[ci]->node_lst_[ni].coupled_nodes_map_; if (!back.count((unsigned)i)) { snprintf(buf, sizeof buf, "coupling-not-recorded-on-the-partner: node %u of cell index %zu -> node %u of cell index %u, which holds no entry for cell index %zu (phase %s)", n.node_id_, i, ni, ci, i, phase); return buf; } }
 #endif
     return "";
 }
